@@ -37,13 +37,17 @@ ValidGo(o)       == (\A i \in 1..Len(o.parsed) : o.parsed[i] = 1) /\ o.compiled 
 GenOK(req, o) == Total(o) /\ Deterministic(o) /\ Compositional(o) /\ DistinctOnce(req, o) /\ ValidGo(o)
 
 (***************************************************************************)
-(* Parameter parsing (run.go): apiversion in {v1, v2} (default v1), three   *)
-(* booleans, a set of special names; anything else is an error.            *)
+(* Parameter parsing (run.go): apiversion in {v1, v2} in any letter case    *)
+(* (default v1), three booleans in strconv.ParseBool's spellings, a set of *)
+(* special names, dest; anything else is an error.  Bound to the code:     *)
+(* MCGenerator prints a bounded (key, value) domain, the plug-in is run    *)
+(* once per pair, TraceGenerator requires acceptance iff ParamOK.          *)
 (***************************************************************************)
 Bools == {"true", "false", "1", "0", "t", "f", "T", "F", "TRUE", "FALSE", "True", "False"}
 ParamOK(k, v) ==
   CASE k = "apiversion" -> v \in {"v1", "v2", "V1", "V2"}
-    [] k \in {"filepermessage", "enableunsafedecode", "debug"} -> v \in Bools \cup {""}
+    [] k \in {"filepermessage", "enableunsafedecode", "debug"} -> v \in Bools      \* (a bare "filepermessage" is refused: the flag set is
+                                                                                   \*  fed through flag.Set, which has no implicit "true")
     [] k \in {"specialname", "dest", "paths", "module"} -> TRUE
     [] OTHER -> FALSE
 =============================================================================
